@@ -102,6 +102,8 @@ func (noMetrics) AddUnpublishedOperationTime(time.Duration) {}
 func (noMetrics) AddOperationToBatchTime(time.Duration)     {}
 func (noMetrics) GetCreateOperationResultTime(time.Duration) {
 }
+func (noMetrics) HTTPCreateUpdateTime(time.Duration) {}
+func (noMetrics) HTTPResolveTime(time.Duration)      {}
 
 // Metrics is a no-op metrics provider.
 var Metrics = noMetrics{}
